@@ -72,6 +72,15 @@ def run_one(ck, prog):
         ctx = prog.ctx(fn)
         cfg = ctx.cfg
         calls = [bb for bb, t in cfg.calls(pred)]
+        if fname.endswith("default_read_to_end"):
+            # the one-call helper default_read_buf may be written out in place: the main loop's read is then the reader call that fills
+            # the ReadBuf's unfilled part, the probe's the one that fills the stack array
+            into_readbuf = lambda bb: mentions(ctx.args(bb)[1], ctx.prov, lambda z: z[0] == "call" and (z[1] or "").endswith(("initialize_unfilled", "initialize_unfilled_to")))  # noqa: E731
+            reads = [bb for bb, t in cfg.calls(lambda t: (t.get("callee") or "").endswith("io::Read::read"))]
+            if label == "main" and not calls:
+                calls = [bb for bb in reads if into_readbuf(bb)]
+            if label == "probe":
+                calls = [bb for bb in reads if not into_readbuf(bb)]
         ck.ob("C15.1", f"{label}|anchor|call", len(calls) == 1, fn=fname, detail=f"reader/writer call sites for the {label} loop: {len(calls)}")
         if len(calls) != 1:
             continue
